@@ -1922,3 +1922,43 @@ Proof.
       destruct (lc_log _ _ _ _ HC) as (A & B & _). unfold last_index. rewrite A, B. reflexivity. }
   exact HLs.
 Qed.
+
+(* MAIN 7' (star_commit_all).  In addition: the last entry of L's log is of L's term (true
+   after become_leader: the no-op entry), L's own Progress has matched = last_index (its log
+   is persisted; persistence itself is not modelled), the voters are L and (some of) the
+   followers, and L's commit index is consistent with the Progress map at the start
+   (CommitInv: at most last_index, and equal to it if every voter's matched already is -
+   i.e. some voter still lags, or the log is already committed).  Then after the
+   convergence bound plus heartbeat_timeout + 1 more rounds the leader and every follower
+   have commit index = last_index L. *)
+Theorem star_commit_all :
+  forall (L : raft) (Fs : list raft) (rwl rwf : bool) (pl : progress) (N0 K : nat)
+         (L' : raft) (Fs' : list raft),
+  star_leader L rwl -> Fs <> [] -> NoDup (map r_id Fs) -> Forall (star_start L rwf) Fs ->
+  (forall F, In F Fs ->
+     (N.to_nat (r_heartbeat_timeout L + 2) *
+      N.to_nat (pair_measure_bound (last_index (r_log L)) (start_matched L (r_id F))) <= N0)%nat) ->
+  (* commit *)
+  ll_term (abs (r_log L)) (last_index (r_log L)) = SOk (r_term L) ->
+  incoming (conf_of L) <> [] ->
+  (forall v, In v (incoming (conf_of L)) \/ In v (outgoing (conf_of L)) ->
+             v = r_id L \/ In v (map r_id Fs)) ->
+  get_pr L (r_id L) = Some pl -> matched pl = last_index (r_log L) ->
+  CommitInv (last_index (r_log L)) L ->
+  (N.to_nat (r_heartbeat_timeout L + 1) <= K)%nat ->
+  star_rounds (N0 + K) L Fs = Ok (L', Fs') ->
+  committed (r_log L') = last_index (r_log L) /\
+  Forall2 (fun F F' => star_done L L' F F' /\ committed (r_log F') = last_index (r_log L)) Fs Fs'.
+Proof.
+  intros L Fs rwl rwf pl N0 K L' Fs' HL Hne Hnd Hall HN HlT Hinc Hvot Hgl Hml HCI HK H.
+  destruct (star_start_StarInv L Fs rwl rwf HL Hnd Hall) as [HLL HS].
+  destruct HL as (Ls & Lt & Lrep & Lnz & Lb & Ltr & Lcq & Lro & LH).
+  pose proof (abs_last rwl _ Lrep) as Hlast. rewrite Hlast in *.
+  destruct (star_commit (abs (r_log L)) (r_term L) (r_id L) rwf rwl (r_log L) (start_matched L)
+              HLL Lt Lrep eq_refl HlT (r_heartbeat_timeout L) L Fs N0 K L' Fs' pl HS Hne LH
+              ltac:(intros F HF; unfold star_bound; apply HN; exact HF)
+              Hinc Hvot Hgl Hml HCI HK H) as [HcL HF].
+  split; [exact HcL|].
+  eapply Forall2_impl_in; [|exact HF]. intros F F' _ ((E & (pr' & Hg & Hm) & Ag) & Hc).
+  split; [|exact Hc]. unfold star_done. rewrite Hlast. split; [exact E|]. split; [eauto|exact Ag].
+Qed.
